@@ -48,4 +48,68 @@ theorem flags_table :
 example : (wire ⟨2, 4⟩ 2).path = .buffered 2 := rfl
 example : (wire ⟨2, 5⟩ 0).path = .direct := rfl
 
+
+/-! ### histories of connections on one App object: every connection is wired by the options in force when it is made -/
+
+theorem serve_append (o : Opts) (h t : List AppOp) : serve o (h ++ t) = serve o h ++ serve (inForce o h) t := by
+  induction h generalizing o with
+  | nil => rfl
+  | cons op r ih =>
+    cases op with
+    | setQueue q => simp only [List.cons_append, serve, appStep, inForce]; exact ih _
+    | connect v => simp only [List.cons_append, serve, appStep, inForce, List.cons.injEq, true_and]; exact ih _
+
+theorem inForce_append (o : Opts) (h t : List AppOp) : inForce o (h ++ t) = inForce (inForce o h) t := by
+  induction h generalizing o with
+  | nil => rfl
+  | cons op r ih => simp only [List.cons_append, inForce]; exact ih _
+
+/-- connections do not change the options -/
+theorem inForce_connects (o : Opts) (cs : List AppOp) (hc : ∀ op ∈ cs, op.isConnect = true) : inForce o cs = o := by
+  induction cs generalizing o with
+  | nil => rfl
+  | cons op r ih =>
+    have h1 : op.isConnect = true := hc op (List.mem_cons_self ..)
+    have h2 : ∀ x ∈ r, x.isConnect = true := fun x hx => hc x (List.mem_cons_of_mem _ hx)
+    cases op with
+    | setQueue q => simp [AppOp.isConnect] at h1
+    | connect v => simp only [inForce, appStep]; exact ih _ h2
+
+/-- **each connection is wired by the options in force when it is made** -/
+theorem connection_wiring (o : Opts) (h : List AppOp) (v : Ver) :
+    serve o (h ++ [.connect v]) = serve o h ++ [wire v (inForce o h).maxQueue] := by
+  rw [serve_append]; rfl
+
+/-- whatever the App object served before, after `ws_options.max_receive_queue = q` every later connection (any number of other connections in between, any
+    announced version) is wired exactly as a WebSocket constructed with `q` -/
+theorem reconfigured_capacity_honoured (o : Opts) (h cs : List AppOp) (q : Nat) (v : Ver) (hc : ∀ op ∈ cs, op.isConnect = true) :
+    (serve o (h ++ [.setQueue q] ++ cs ++ [.connect v])).getLast? = some (wire v q) := by
+  rw [connection_wiring, inForce_append, inForce_append, inForce_connects _ cs hc]
+  simp [inForce, appStep]
+
+/-- … hence it runs the buffered receiver of capacity `q` (holding at most `q + 1` events in every invariant state) if `q > 0`, and the direct path if `q = 0` -/
+theorem reconfigured_path (o : Opts) (h cs : List AppOp) (q : Nat) (v : Ver) (hc : ∀ op ∈ cs, op.isConnect = true) :
+    ∃ w, (serve o (h ++ [.setQueue q] ++ cs ++ [.connect v])).getLast? = some w ∧
+      (0 < q → w.path = .buffered q) ∧ (q = 0 → w.path = .direct) := by
+  refine ⟨wire v q, reconfigured_capacity_honoured o h cs q v hc, ?_, ?_⟩
+  · intro hq; exact (buffered_iff v q q).2 ⟨rfl, hq⟩
+  · intro hq; exact (direct_iff v q).2 hq
+
+/-- a new App object that was never configured serves its connections with a queue of 4 -/
+theorem fresh_app_default (cs : List AppOp) (v : Ver) (hc : ∀ op ∈ cs, op.isConnect = true) :
+    (serve {} (cs ++ [.connect v])).getLast? = some (wire v 4) := by
+  rw [connection_wiring, inForce_connects _ cs hc]; simp
+
+/-- one connection per `connect` in the history -/
+theorem serve_length (o : Opts) (h : List AppOp) : (serve o h).length = (h.filter AppOp.isConnect).length := by
+  induction h generalizing o with
+  | nil => rfl
+  | cons op r ih =>
+    cases op with
+    | setQueue q => simp only [serve, appStep, List.filter, AppOp.isConnect]; exact ih _
+    | connect v => simp only [serve, appStep, List.filter, AppOp.isConnect, List.length_cons]; rw [ih]
+
+example : serve {} [.connect ⟨2, 3⟩, .setQueue 1, .connect ⟨2, 0⟩, .setQueue 0, .connect ⟨2, 4⟩]
+    = [wire ⟨2, 3⟩ 4, wire ⟨2, 0⟩ 1, wire ⟨2, 4⟩ 0] := by decide
+
 end Wm
